@@ -298,6 +298,16 @@ func (g *Gen) node(depth int) *Node {
 			return g.strct(depth)
 		case c < g.P.PStruct+g.P.PSlice:
 			n := &Node{Kind: KSlice, Elem: g.node(depth + 1)}
+			if r.P(g.P.PCoercer) { // a custom coercer on the slice itself (not on its elements)
+				n.Coercer = "err"
+				if k := n.Elem.Kind; (k == KString || k == KInt || k == KBool) && r.P(70) {
+					n.Coercer = "const"
+					n.CoList = []Leaf{}
+					for i := r.Intn(3); i > 0; i-- {
+						n.CoList = append(n.CoList, g.leaf(k))
+					}
+				}
+			}
 			g.req(n)
 			if r.P(g.P.PDefault) && IsPrim(n.Elem.Kind) {
 				n.HasDef = true
@@ -316,6 +326,9 @@ func (g *Gen) node(depth int) *Node {
 			n := &Node{Kind: KPtr, Elem: g.node(depth + 1)}
 			if n.Elem.Kind == KPtr || n.Elem.Kind == KPre { // keep pointer chains to depth 1, no Preprocess behind pointers
 				n.Elem = g.prim(Pick(r, g.P.Kinds))
+			}
+			if IsPrim(n.Elem.Kind) && n.Elem.Coercer != "" && !n.Elem.Named && r.P(50) {
+				n.PtrCo = true
 			}
 			if r.P(g.P.PRequired) {
 				t := TestSpec{}
